@@ -375,6 +375,9 @@ SAMPLES = [
     ('(function(){ "use strict"; return this })()', OK), ('a = 1 /* c1 */ + /* c2 */ 2 // c3\n', OK),
     ('var a = { get b(){ return 1 }, set b(v){ this._b = v }, c: 1, "d": 2, 3: 4, if: 5 }', OK),
     ('a = [1, , 2, , , 3, , ]', OK), ('a = [, ]', OK), ('a = b ? c, d : e', ERR), ('a = (b ? (c, d) : e)', OK),
+    ('{} /=a/.test(b);', OK), ('if (a) {} /=a/.test(b);', OK), ('x++\n/=a/.test(b)', OK), ('++/=a/.lastIndex;', OK),
+    ('get in a;', OK), ('x = set in a;', OK), ('get instanceof a;', OK), ('get\n++', ERR), ('get x;', ERR), ('get\nx', OK),
+    ('set = get ? set : get;', OK), ('var get, set;', OK), ('get.a(set);', OK),
     ('a||{};', OK), ('a&&{};', OK), ('a|{};', OK), ('a^{};', OK), ('a&{};', OK), ('a=={};', OK), ('a||{}.b;', OK),
     ('a && {b: 1}.b();', OK), ('a || function(){}();', OK), ('return\n;', OK), ('continue\n;', OK), ('break\n;a', OK),
     ('if (a) return\n; else b', OK), ('if (a) break\n;\nelse b', OK), ('throw a\n;', OK), ('a\n;', OK),
@@ -584,6 +587,10 @@ def classify(text, calm, sp, spec):
 
     # --- anything but SP/TAB between the previous token and a regex literal
     if s_ok:
+        if toks and toks[0].cls == 'Regex' and text[:toks[0].off].strip(' \t') != '':
+            repl = ' ' + text[toks[0].off:]
+            if same_outcome(calm_parse(repl), spec.parse(repl)):
+                return 'KF-05d white space other than SP/TAB (or a line terminator) before a regex literal: `/` read as division'
         for a, b in pairs():
             gap = text[end(a):b.off]
             if b.cls == 'Regex' and gap.strip(' \t') != '':
@@ -639,6 +646,14 @@ def classify(text, calm, sp, spec):
                 if t.text in RESTRICTED and toks[i + 1].nl_before:
                     return 'KF-04e restricted keyword used as property name followed by a line terminator (`a.return <LT> b`): semicolon inserted'
                 return 'KF-05c reserved word used as property name: a following `/` is read as regex start / the token is not seen as an operand'
+
+    # --- regex literal starting with `/=` where calmjs needs its DIV back-track
+    if s_ok and not c_ok:
+        for x, y in pairs():
+            if y.cls == 'Regex' and y.text.startswith('/=') and x.text in ('}', '++', '--', ')'):
+                repl = text[:y.off] + '/x' + text[y.off + 2:]
+                if same_outcome(calm_parse(repl), spec.parse(repl)):
+                    return 'KF-05g regex literal starting with `/=` after `}` `++` `--`: read as `/=`, the back-track in p_error only handles DIV'
 
     # --- with (x) /re/
     if s_ok:
@@ -757,12 +772,77 @@ def gen_random(seed, n):
     return out
 
 
+ALPHABETS = {
+    # statement / expression skeleton tokens
+    'core': ['a', '1', "'s'", '/r/', '(', ')', '{', '}', '[', ']', ';', ',', '.', ':', '?', '=', '+', '++', '-', '!', '/', '/=',
+             'in', 'var', 'function', 'if', 'else', 'for', 'while', 'do', 'return', 'break', 'new', 'this', 'typeof',
+             'get', 'case', 'default', 'switch', 'try', 'catch', 'finally', 'throw', 'with', 'continue', '\n'],
+    'small': ['a', '1', '(', ')', '{', '}', '[', ']', ';', ',', '.', ':', '=', '+', '++', '/', 'in', 'var', 'function', 'if',
+              'else', 'for', 'return', 'new', 'get', '\n'],
+    'expr': ['a', '1', '/r/', '(', ')', '{', '}', '[', ']', ',', '.', ':', '?', '=', '+', '++', '--', '-', '!', '/', '/=', '*',
+             '<', 'in', 'instanceof', 'new', 'function', 'typeof', 'delete', 'void', 'this', '&&', '||', '|', ';', '\n'],
+}
+
+
+def gen_exhaustive(k, alphabet):
+    """all token strings of length <= k over the alphabet, joined by one space (`\\n` = a line terminator)"""
+    import itertools
+    toks = ALPHABETS[alphabet]
+    for n in range(1, k + 1):
+        for combo in itertools.product(toks, repeat=n):
+            yield ' '.join(combo).replace('\\n', '\n')
+
+
+def unicode_sweep(spec):
+    """per code point: identifier start / part / white space / line terminator verdicts of both sides"""
+    import unicodedata
+    print('=' * 100)
+    print('unicode sweep (BMP + samples of astral planes); Python unicodedata %s' % unicodedata.unidata_version)
+    cps = [c for c in range(0x80, 0x10000) if not 0xD800 <= c <= 0xDFFF] + list(range(0x10000, 0x10400)) + \
+        list(range(0x1D400, 0x1D800)) + list(range(0x20000, 0x20100)) + list(range(0x1F600, 0x1F650))
+    ID_START = ('Lu', 'Ll', 'Lt', 'Lm', 'Lo', 'Nl')
+    ID_PART = ID_START + ('Mn', 'Mc', 'Nd', 'Pc')
+    old = unicodedata.ucd_3_2_0
+    kinds = collections.OrderedDict([
+        # name -> (text builder, was the code point already in the class in Unicode 3.2?)
+        ('identifier-start  `<c>;`', (lambda ch: ch + ';', lambda ch: old.category(ch) in ID_START)),
+        ('identifier-part   `a<c>;`', (lambda ch: 'a' + ch + ';', lambda ch: old.category(ch) in ID_PART or ch in u'\u200c\u200d')),
+        ('white-space       `1<c>+1;` (valid iff <c> is WhiteSpace or LineTerminator)',
+         (lambda ch: '1' + ch + '+1;', lambda ch: old.category(ch) == 'Zs')),
+        ('line-terminator   `1<c>2` (valid iff <c> is a LineTerminator)', (lambda ch: '1' + ch + '2', lambda ch: False)),
+    ])
+    for kind, (mk, in32) in kinds.items():
+        texts = [mk(chr(c)) for c in cps]
+        sres = spec.parse_many(texts)
+        diff = collections.OrderedDict()
+        for c, t, sr in zip(cps, texts, sres):
+            cr = calm_parse(t)
+            if (cr[0] == 'ok') != (sr[0] == 'ok'):
+                key = ('calmjs accepts, ES5 rejects' if cr[0] == 'ok' else 'calmjs rejects, ES5 accepts',
+                       unicodedata.category(chr(c)), 'in class since Unicode<=3.2' if in32(chr(c)) else 'later/other')
+                diff.setdefault(key, []).append(c)
+        print('-- %s: %d differing code points' % (kind, sum(len(v) for v in diff.values())))
+        for (what, cat, age), lst in sorted(diff.items()):
+            rs = []
+            for c in lst:
+                if rs and rs[-1][1] == c - 1:
+                    rs[-1][1] = c
+                else:
+                    rs.append([c, c])
+            shown = ', '.join(('U+%04X' % a if a == b else 'U+%04X-%04X' % (a, b)) for a, b in rs[:10])
+            print('   %-28s %s %-28s: %5d code points in %3d ranges: %s%s' % (
+                what, cat, age, len(lst), len(rs), shown, ' ...' if len(rs) > 10 else ''))
+
+
 def main():
     ap = argparse.ArgumentParser()
     ap.add_argument('--lean', default=framework.LEAN)
     ap.add_argument('--random', type=int, default=300)
     ap.add_argument('--seed', type=int, default=20260923)
     ap.add_argument('--node', action='store_true')
+    ap.add_argument('--exhaustive', type=int, default=0, help='all token strings up to this length')
+    ap.add_argument('--alphabet', default='core', choices=sorted(ALPHABETS))
+    ap.add_argument('--unicode', action='store_true', help='per-code-point sweep of identifier / white space classes')
     ap.add_argument('-v', action='store_true')
     ap.add_argument('--max-show', type=int, default=6)
     args = ap.parse_args()
@@ -780,6 +860,12 @@ def main():
         cases.append(('hand', t, v))
     for src, t in gen_random(args.seed, args.random):
         cases.append((src, t, None))
+
+    if args.exhaustive:
+        for t in gen_exhaustive(args.exhaustive, args.alphabet):
+            cases.append(('exh', t, None))
+    if args.unicode:
+        unicode_sweep(spec)
 
     stats = collections.Counter()
     classes = collections.OrderedDict()
